@@ -2,6 +2,7 @@ package jet
 
 import (
 	"errors"
+	"fmt"
 	"reflect"
 )
 
@@ -16,57 +17,68 @@ type hxData struct {
 	u int
 }
 
-func (d hxData) Val() int         { return d.A }
-func (d *hxData) Ptr() int        { return d.A + 1 }
-func (d hxData) Two(a, b int) int { return a + b }
+func (d hxData) Val() int                   { return d.A }
+func (d *hxData) Ptr() int                  { return d.A + 1 }
+func (d hxData) Two(a, b int) int           { return a + b }
+func (d hxData) Show(s fmt.Stringer) string { return s.String() }
+
+type c12Stringer struct{}
+
+func (c12Stringer) String() string { return "str" }
 
 // c12Failing: single-line actions, one per failure class the property enumerates (and per
 // operand node kind that carries the position), that Jet detects itself.
 var c12Failing = []string{
-	`{{ nope }}`,                                // unknown identifier
-	`{{ .Nope }}`,                               // unknown field
-	`{{ d.Nope }}`,                              // unknown field through a chain
-	`{{ d.Nope() }}`,                            // unknown method
-	`{{ d.u }}`,                                 // unexported field
-	`{{ yield nope() }}`,                        // unknown block
-	`{{ include "/nope.jet" }}`,                 // unknown template
-	`{{ s["x"] }}`,                              // index of the wrong kind
-	`{{ s[n] }}`,                                // index out of range (n symbolic, >= len or < 0)
-	`{{ str[n] }}`,                              // string index out of range
-	`{{ s[1:n] }}`,                              // slice bound out of range
-	`{{ s[n:] }}`,                               // slice bound out of range (low)
-	`{{ "a" * 2 }}`,                             // operand of the wrong kind (string literal operand)
-	`{{ m + 1 }}`,                               // operand of the wrong kind (map)
-	`{{ true - 1 }}`,                            // operand of the wrong kind (bool literal)
-	`{{ nil + 1 }}`,                             // operand of the wrong kind (nil literal)
-	`{{ s() }}`,                                 // call target of the wrong kind
-	`{{ 1 | s }}`,                               // pipe target of the wrong kind
-	`{{ upper() }}`,                             // argument count (too few)
-	`{{ upper("a", "b") }}`,                     // argument count (too many)
-	`{{ repeat("a", "b") }}`,                    // argument of the wrong kind
-	`{{ d.Two(1) }}`,                            // method argument count
-	`{{ range 5 }}x{{ end }}`,                   // range subject of the wrong kind
-	`{{ range k, v := ch }}x{{ end }}`,          // two variables over an index-less ranger
-	`{{ range nilp }}x{{ end }}`,                // range over nil pointer
-	`{{ yield b(a) }}`,                          // yield argument without a value
-	`{{ upper(_) }}`,                            // '_' without a piped value
-	`{{ len(_) }}`,                              // '_' without a piped value (jet.Func)
-	`{{ x = 1 }}`,                               // assignment to an undeclared variable
-	`{{ 1 | nilv }}`,                            // piping into an invalid value
-	`{{ d.P.A }}`,                               // nil pointer dereference
-	`{{ "x" | raw | upper }}`,                   // writer not last
-	`{{ -"a" }}`,                                // unary minus on a string
-	`{{ isset(1 + 1, upper) ? nope : nope }}`,   // failure inside a ternary
-	`{{ mm.missing.name }}`,                     // missing map key in the middle of a chain
-	`{{ mm.missing.name.deeper }}`,              // ... two steps before the end
-	`{{ arr[1:] }}`,                             // slicing an array held by value
+	`{{ nope }}`,                       // unknown identifier
+	`{{ .Nope }}`,                      // unknown field
+	`{{ d.Nope }}`,                     // unknown field through a chain
+	`{{ d.Nope() }}`,                   // unknown method
+	`{{ d.u }}`,                        // unexported field
+	`{{ yield nope() }}`,               // unknown block
+	`{{ include "/nope.jet" }}`,        // unknown template
+	`{{ s["x"] }}`,                     // index of the wrong kind
+	`{{ s[n] }}`,                       // index out of range (n symbolic, >= len or < 0)
+	`{{ str[n] }}`,                     // string index out of range
+	`{{ s[1:n] }}`,                     // slice bound out of range
+	`{{ s[n:] }}`,                      // slice bound out of range (low)
+	`{{ "a" * 2 }}`,                    // operand of the wrong kind (string literal operand)
+	`{{ m + 1 }}`,                      // operand of the wrong kind (map)
+	`{{ true - 1 }}`,                   // operand of the wrong kind (bool literal)
+	`{{ nil + 1 }}`,                    // operand of the wrong kind (nil literal)
+	`{{ s() }}`,                        // call target of the wrong kind
+	`{{ 1 | s }}`,                      // pipe target of the wrong kind
+	`{{ upper() }}`,                    // argument count (too few)
+	`{{ upper("a", "b") }}`,            // argument count (too many)
+	`{{ repeat("a", "b") }}`,           // argument of the wrong kind
+	`{{ d.Two(1) }}`,                   // method argument count
+	`{{ range 5 }}x{{ end }}`,          // range subject of the wrong kind
+	`{{ range k, v := ch }}x{{ end }}`, // two variables over an index-less ranger
+	`{{ range nilp }}x{{ end }}`,       // range over nil pointer
+	`{{ yield b(a) }}`,                 // yield argument without a value
+	`{{ upper(_) }}`,                   // '_' without a piped value
+	`{{ len(_) }}`,                     // '_' without a piped value (jet.Func)
+	`{{ x = 1 }}`,                      // assignment to an undeclared variable
+	`{{ 1 | nilv }}`,                   // piping into an invalid value
+	`{{ d.P.A }}`,                      // nil pointer dereference
+	`{{ "x" | raw | upper }}`,          // writer not last
+	`{{ -"a" }}`,                       // unary minus on a string
+	`{{ isset(1 + 1, upper) ? nope : nope }}`, // failure inside a ternary
+	`{{ mm.missing.name }}`,                   // missing map key in the middle of a chain
+	`{{ mm.missing.name.deeper }}`,            // ... two steps before the end
+	`{{ arr[1:] }}`,                           // slicing an array held by value
 	`{{ arr[0:2] }}`,
-	`{{ s[up:] }}`,                              // slice bound of a non-numeric kind (uintptr)
+	`{{ s[up:] }}`, // slice bound of a non-numeric kind (uintptr)
 	`{{ str[:up] }}`,
-	`{{ s[cx] }}`,                               // index of complex kind
-	`{{ s[:bl] }}`,                              // slice bound of bool kind
-	`{{ "x" | nilv }}`,                          // pipe target that evaluates to no value
-	`{{ "x" | mm.present.missing }}`,            // ... a chain ending in a missing map key
+	`{{ s[cx] }}`,                    // index of complex kind
+	`{{ s[:bl] }}`,                   // slice bound of bool kind
+	`{{ "x" | nilv }}`,               // pipe target that evaluates to no value
+	`{{ "x" | mm.present.missing }}`, // ... a chain ending in a missing map key
+	`{{ describe(5) }}`,              // argument that does not implement the parameter's interface type
+	`{{ describe("s") }}`,
+	`{{ wrapErr("x") }}`,             // ... error
+	`{{ d.Show(1) }}`,                // ... of a method
+	`{{ 5 | describe }}`,             // ... piped
+	`{{ describeAll(stringer, 5) }}`, // ... in the variadic tail
 }
 
 func c12Vars(n int64) VarMap {
@@ -87,6 +99,10 @@ func c12Vars(n int64) VarMap {
 	vars.Set("up", uintptr(1))
 	vars.Set("cx", complex(1, 0))
 	vars.Set("bl", true)
+	vars.Set("stringer", c12Stringer{})
+	vars.Set("describe", func(s fmt.Stringer) string { return s.String() })
+	vars.Set("wrapErr", func(e error) string { return e.Error() })
+	vars.Set("describeAll", func(s ...fmt.Stringer) string { return "" })
 	return vars
 }
 
@@ -324,4 +340,48 @@ func H_C12_afterSuccess() {
 	}
 	vfAssert(hxContains(err.Error(), c12Needle("/second.jet", 2)), "the message names the file and the action's line")
 	vfAssert(out == "\nA", "everything before the failing action has been written, nothing after it")
+}
+
+// H_C12_afterAbsorbed: the failing action comes after an action in which a failure was
+// absorbed - by isset (of an exec that fails, with and without context) or by try (around
+// an exec, an include, a writer command) - at the top level or inside a range: the text
+// between the two has been written, the error names the failing action's line, and nothing
+// after it is written.
+//
+//gosym:reach failed
+func H_C12_afterAbsorbed() {
+	abs := []string{
+		`{{ isset(exec("/bad.jet")) }}`,
+		`{{ isset(exec("/bad.jet", .)) }}`,
+		`{{ try }}{{ exec("/bad.jet") }}{{ end }}`,
+		`{{ try }}{{ include "/bad.jet" }}{{ catch }}c{{ end }}`,
+		`{{ try }}{{ raw: exec("/bad.jet") }}{{ end }}`,
+		`{{ isset(exec("/bad2.jet")) }}`,
+		`{{ isset(includeIfExists("/bad.jet")) }}`,
+	}
+	a := ndChoice("absorbed", len(abs))
+	inRange := ndBool("inRange")
+	// (includeIfExists writes as it goes: the text before the failure inside it is out already)
+	shown := []string{"false", "false", "", "c", "", "false", "xfalse"}[a]
+	src := "before\n" + abs[a] + "\nmiddle\n{{ nope }}after"
+	line := 4
+	want := "before\n" + shown + "\nmiddle\n"
+	if inRange {
+		src = "{{ range one }}" + src + "{{ end }}"
+	}
+	set := hxSet(nil, "/m.jet", src,
+		"/bad.jet", `x{{ range one }}{{ .Missing.X }}{{ end }}`,
+		"/bad2.jet", `{{ try }}{{ nope }}{{ end }}y{{ block b() }}z{{ end }}{{ nope2 }}`)
+	vars := make(VarMap)
+	vars.Set("one", []int{1})
+	out, err := hxExec(set, "/m.jet", vars, hxData{})
+	vfReach("failed")
+	vfAssert(err != nil, "the failure is returned as an error")
+	if err == nil {
+		return
+	}
+	vfNote(out)
+	vfNote(c12Head(err.Error()))
+	vfAssert(hxContains(err.Error(), c12Needle("/m.jet", line)), "the message names the file and the failing action's line")
+	vfAssert(out == want, "everything before the failing action has been written, nothing after it")
 }
